@@ -121,6 +121,19 @@ PermHeader(h, pi) ==
             !.tie = [c \in 1 .. h.nc |-> h.tie[CHOOSE x \in 1 .. h.nc : pi[x] = c]],
             !.lines = [j \in DOMAIN h.lines |-> [m |-> h.lines[j].m, r |-> [i \in DOMAIN h.lines[j].r |-> pi[h.lines[j].r[i]]]]]]
 Neutral == Done => \A pi \in AllPerms : LET h2 == PermHeader(s.h, pi) IN Meta("C11a", h2, pi, FinalDiff(TraceOf(s), TraceOf(Run(h2)), pi))
+(* C11(b): a withdrawn candidate is as good as absent: deleting the withdrawn candidates from the election (candidate list, *)
+(* tie order; the ballots never rank them after Election.__init__'s filtering) gives the same record, name by name        *)
+DropWithdrawn(h) ==
+  LET keep == {c \in 1 .. h.nc : ~h.wd[c]}
+      n2 == Cardinality(keep)
+      map == [c \in 1 .. h.nc |-> IF h.wd[c] THEN 0 ELSE Cardinality({x \in keep : x <= c})]
+      inv == [k \in 1 .. n2 |-> CHOOSE c \in keep : map[c] = k]
+  IN [h2 |-> [h EXCEPT !.nc = n2, !.wd = [k \in 1 .. n2 |-> FALSE], !.und = [k \in 1 .. n2 |-> h.und[inv[k]]],
+                       !.tie = [k \in 1 .. n2 |-> Cardinality({x \in keep : h.tie[x] <= h.tie[inv[k]]})],
+                       !.lines = [j \in DOMAIN h.lines |-> [m |-> h.lines[j].m, r |-> [i \in DOMAIN h.lines[j].r |-> map[h.lines[j].r[i]]]]]],
+      map |-> map]
+WithdrawnAbsent == Done /\ (\E c \in 1 .. s.h.nc : s.h.wd[c]) =>
+                     LET d == DropWithdrawn(s.h) IN Meta("C11b", d.h2, d.map, SameByName(TraceOf(s), TraceOf(Run(d.h2)), d.map))
 (* C10: reversing the ballot lines and splitting every multiplier m > 1 into 1 + (m-1) changes nothing but the ballot table *)
 RECURSIVE SplitLines(_, _)
 SplitLines(L, j) == IF j = 0 THEN <<>>
